@@ -213,6 +213,7 @@ n *= data->elem_len;
     CHelpers[name] = dict(
         scope="cwrap_impl",
         dependent_helpers=["array_context"],
+        c_include=["<string.h>", "<stddef.h>"],
         cxx_include=["<cstring>", "<cstddef>"],
         # XXX - mangle name
         source=wformat(
